@@ -137,6 +137,11 @@ Theorem C05_while_is_python_loop_for_programs : forall cond limit body fuel om c
   exists cur, ploop Z (kcond cond limit) (krun body) fuel (fun col => om col && in_filter cf col) xs c0 = Some (Some (c, cur)) /\ cveq xs' cur.
 Proof. exact kwhile_is_loop. Qed.
 Print Assumptions C05_while_is_python_loop_for_programs.
+(* the structure hypothesis of C05_python_loop_is_while is met by programs that only overwrite variables that exist *)
+Theorem C05_overwrite_only_programs_keep_structure : forall ss v m cr c1 w,
+  puts_existing ss v = true -> krun ss v m cr = Some (c1, w) -> cshape w = cshape v.
+Proof. exact krun_keeps_shape. Qed.
+Print Assumptions C05_overwrite_only_programs_keep_structure.
 Theorem C05_programs_are_well_behaved : forall ss c0, wb Z (fun xs m => krun ss xs m c0).
 Proof. exact krun_wb. Qed.
 Print Assumptions C05_programs_are_well_behaved.
